@@ -972,6 +972,11 @@ func (ds *AnySource) PrepareRun(Npresamples int, Nsamples int) error {
 			ts = &defaultTS
 		}
 		dsp.TriggerState = *ts
+		// The restored TriggerState carries a zero EMTState: keep its copy of the record lengths in
+		// sync (as ConfigureTrigger and ConfigurePulseLengths do), so that NToKeepOnTrim() retains
+		// enough history from the very first block.
+		dsp.EMTState.nsamp = int32(Nsamples)
+		dsp.EMTState.npre = int32(Npresamples)
 
 		// Publish Records and Record Summaries over ZMQ. Not optional at this time.
 		dsp.SetPubRecords()
